@@ -291,12 +291,16 @@ void XMLWriter::transition(const edge_t& edge)
 
 void XMLWriter::labels(int x, int y, const edge_t& edge)
 {
-    string str;
     if (edge.select.get_size() > 0) {
-        str = edge.select[0].get_name() + " : ";
-        if (edge.select[0].get_type().size() > 0 && edge.select[0].get_type()[0].size() > 0) {
-            str += edge.select[0].get_type()[0].get_label(0);
-        }  // else ? should not happen
+        string str;
+        for (uint32_t i = 0; i < edge.select.get_size(); ++i) {
+            type_t type = edge.select[i].get_type();
+            while (type.get_kind() == CONSTANT)  // put on by the builder, not part of the select syntax
+                type = type.get(0);
+            if (i > 0)
+                str += ", ";
+            str += edge.select[i].get_name() + " : " + type.declaration();
+        }
         label("select", str, x, y - 32);
     }
     if (!edge.guard.empty()) {
@@ -307,6 +311,9 @@ void XMLWriter::labels(int x, int y, const edge_t& edge)
     }
     if (!edge.assign.empty()) {
         label("assignment", edge.assign.str(), x, y + 16);
+    }
+    if (!edge.prob.empty()) {
+        label("probability", edge.prob.str(), x, y + 32);
     }
 }
 
